@@ -52,7 +52,7 @@ inductive Ev (α : Type v) where
 
 structure Src (α : Type v) where
   script : List (Ev α)
-  calls : Nat := 0     -- Next calls
+  calls : Nat := 0     -- Next calls with a live context
   pulled : Nat := 0    -- items handed out
   closes : Nat := 0    -- Close calls
   after : Nat := 0     -- Next calls that arrived after a Close
@@ -61,9 +61,12 @@ structure Src (α : Type v) where
 def Src.of (sc : List (Ev α)) : Src α := { script := sc }
 
 def srcStep (s : Src α) (c : Bool) : SStep α × Src α :=
+  -- a call whose context has already expired is answered before anything is touched (it is only
+  -- logged when it arrives after Close)
+  if !c then (.err .ctx, { s with after := if s.closes > 0 then s.after + 1 else s.after })
+  else
   let s := { s with calls := s.calls + 1, after := if s.closes > 0 then s.after + 1 else s.after }
-  if !c then (.err .ctx, s)
-  else match s.script with
+  match s.script with
     | [] => (.end_, s)
     | .item a :: r => (.item a, { s with script := r, pulled := s.pulled + 1 })
     | .transient n :: r => (.err (.transient n), { s with script := r })
